@@ -64,16 +64,27 @@ class Ctx:
             # snapshot of the state at every collection operation (rules query it lazily)
             if c.fr is None:
                 return
+            a0 = c.t['args'][0] if c.t.get('args') else None
+            rty = a0['place']['ty'] if a0 and a0.get('k') in ('copy', 'move') else ''
             events.append(dict(ev=ev, st=c.st.fork(), func=c.fr.func, bb=c.bi, stack=c.st.stack, entry=eng.entry_name,
-                               span=c.t['span'], ep=cur[0]))
+                               span=c.t['span'], ep=cur[0], recv_ty=rty))
         cur = [None]
         eng.event_hook = event_hook
+        segments = []     # loop-body path segments that ended at a back edge: (ep, func, head, state, entry label)
+
+        def hook(kind, st_, fr, bi, *a):
+            if kind == 'backedge':
+                segments.append(dict(ep=cur[0], func=fr.func, head=bi, st=st_, entry=eng.entry_name))
+            return None
+        eng.hooks = [hook]
         t0 = time.time()
         for ep in eps:
             cur[0] = ep
             results[ep] = runner.run_entry(eng, ep)
         eng.event_hook = None
-        self._screen_run = dict(engine=eng, results=results, wall=time.time() - t0, entry_points=eps, events=events)
+        eng.hooks = []
+        self._screen_run = dict(engine=eng, results=results, wall=time.time() - t0, entry_points=eps, events=events,
+                                segments=segments)
         return self._screen_run
 
     def yield_sites(self, prog=None):
